@@ -271,7 +271,7 @@ def _gc_targets():
             purge_repo_cache(root)
 
 
-def build_fixture(name, src_dir, features=None):
+def build_fixture(name, src_dir, features=None, need_artefacts=False):
     """Compile a fixture crate (under /verif/fixtures/<name>) that path-depends on the repo and
     return the path of its fact file.  The crate is materialised under .work with the dependency
     path substituted, so VERIF_REPO is honoured."""
@@ -286,11 +286,33 @@ def build_fixture(name, src_dir, features=None):
     path = os.path.join(out_dir, crate + '.json')
     marker = os.path.join(out_dir, '.complete')
     with locked('fx-%s' % rid):
-        return _build_fixture_locked(name, src_dir, root, rid, crate, out_dir, path, marker)
+        return _build_fixture_locked(name, src_dir, root, rid, crate, out_dir, path, marker, need_artefacts)
 
 
-def _build_fixture_locked(name, src_dir, root, rid, crate, out_dir, path, marker):
-    if os.path.exists(marker) and os.path.exists(path):
+def _artefact_stamp(rid, name):
+    return os.path.join(WORK, 'target-%s-fx' % rid, '.built-for-' + name)
+
+
+def fixture_artefacts_current(name, src_dir):
+    """do the compiled artefacts in the fixture target directory of this tree path belong to the current tree content?
+    (the fact memo is keyed by content, the cargo target directory by path: a memo hit says nothing about the latter)"""
+    root = repo_root()
+    th = tree_hash(root, extra=[tree_hash_dir(src_dir)])
+    rid = hashlib.sha256(root.encode()).hexdigest()[:8]
+    try:
+        return open(_artefact_stamp(rid, name)).read().strip() == th
+    except OSError:
+        return False
+
+
+def _build_fixture_locked(name, src_dir, root, rid, crate, out_dir, path, marker, need_artefacts=False):
+    th_now = os.path.basename(os.path.dirname(out_dir))
+    stamp_ok = False
+    try:
+        stamp_ok = open(_artefact_stamp(rid, name)).read().strip() == th_now
+    except OSError:
+        pass
+    if os.path.exists(marker) and os.path.exists(path) and (stamp_ok or not need_artefacts):
         return path
     stage = os.path.join(WORK, 'fixtures-%s' % rid, name)
     if os.path.isdir(stage):
@@ -310,6 +332,14 @@ def _build_fixture_locked(name, src_dir, root, rid, crate, out_dir, path, marker
     if not os.path.exists(path) or os.path.getmtime(path) < start - 1:
         raise BuildError('fixture %s: fact file not written' % name)
     open(marker, 'w').write(str(time.time()))
+    # the other fixtures share the target directory: their artefact stamps are no longer trustworthy for the library
+    for e in os.listdir(os.path.dirname(_artefact_stamp(rid, name))):
+        if e.startswith('.built-for-'):
+            try:
+                os.unlink(os.path.join(os.path.dirname(_artefact_stamp(rid, name)), e))
+            except OSError:
+                pass
+    open(_artefact_stamp(rid, name), 'w').write(th_now)
     return path
 
 
@@ -329,6 +359,35 @@ def tree_hash_dir(d):
 # loaded facts + indexes
 
 
+def verify_sources(doc, fact_path):
+    """the facts must describe the files that are on disk now: every source file the compiler read (recorded by the
+    driver with rustc's own hash of it) is re-hashed here; a mismatch means the fact memo is stale for this tree"""
+    srcs = doc.get('sources')
+    if srcs is None:
+        raise BuildError('fact file %s was written by an older driver (no source hashes): rebuild' % fact_path)
+    cwd = doc.get('cwd') or ''
+    algo = {'Md5': hashlib.md5, 'Sha1': hashlib.sha1, 'Sha256': hashlib.sha256}
+    root = repo_root()
+    for s in srcs:
+        p = s['path'] if os.path.isabs(s['path']) else os.path.join(cwd, s['path'])
+        # facts of a scratch tree that has since been removed and rebuilt elsewhere are keyed by content: map the
+        # recorded location onto the tree under analysis
+        if cwd and not p.startswith(root) and os.path.abspath(cwd) != os.path.abspath(root) and '/.work/' not in p:
+            p = os.path.join(root, os.path.relpath(p, cwd))
+        h = algo.get(s.get('kind'))
+        if h is None:
+            continue
+        try:
+            with open(p, 'rb') as f:
+                data = f.read()
+        except OSError:
+            if '/.work/' in p:
+                continue        # staged fixture sources are regenerated per run; their content is part of the memo key
+            raise BuildError('stale facts: %s was compiled from %s, which no longer exists' % (fact_path, p))
+        if h(data).hexdigest() != s['hash']:
+            raise BuildError('stale facts: %s does not describe the current content of %s (memo entry out of date)' % (fact_path, p))
+
+
 class Facts:
     def __init__(self, path):
         with open(path) as f:
@@ -338,6 +397,7 @@ class Facts:
             txt = txt.replace('parity_scale_codec::', '')
         d = json.loads(txt)
         self.path = path
+        verify_sources(d, path)
         self.crate = d['crate']
         self.cfg = d['cfg']
         self.impls = d['impls']
